@@ -7,6 +7,8 @@ def run(ctx):
     ctx.ensure_ppl()
     broken = ctx.prove(["PPLV.Props.C02"])
     quick = ctx.tier == "quick"
+    if not quick:
+        broken += ctx.leanchecker(["PPLV.Props.C02"])
     pc.run_poly(ctx, ops="all", n_hist=1200 if quick else 30000, length=10 if quick else 24,
                 maxdim=3 if quick else 4, observe_always=True)
     for b in broken:
